@@ -37,9 +37,18 @@ func NewReplicationStreamObserver(logger loggable) *ReplicationStreamObserver {
 		logger:         logger,
 	}
 }
+// maxObservedStreamIndex bounds the counter slice. The index is the shard id taken straight
+// from stream-open metadata: a huge value is not a real shard, and growing towards it
+// overflowed int32 (panicking with streamGrowLock held, which wedged every later stream).
+const maxObservedStreamIndex = 1 << 20
+
 func (s *ReplicationStreamObserver) ReportStreamValue(idx int32, value int32) {
 	if idx < 0 {
 		s.logger.Warn("ReplicationStreamObserver NotifyConnect called with negative streamIndex")
+		return
+	}
+	if idx >= maxObservedStreamIndex {
+		s.logger.Warn("ReplicationStreamObserver NotifyConnect called with out-of-range streamIndex")
 		return
 	}
 	s.streamGrowLock.Lock()
